@@ -2,7 +2,7 @@
 from .common import *
 from . import c16
 
-RULE = ("histories over up to 3 prepared statements and up to 4 parameter indexes: COM_STMT_SEND_LONG_DATA chunks (sizes 0, "
+RULE = ("statements with 65..260 parameters and long data for parameters around the 64 / 128 / 256 marks; histories over up to 3 prepared statements and up to 4 parameter indexes: COM_STMT_SEND_LONG_DATA chunks (sizes 0, "
         "1, small, multi-packet at small packet limits) interleaved with executions (rebinding and reusing), re-prepares and "
         "executions of other statements; oracle: at each execution the addressed parameter is the concatenation of the chunks "
         "sent for that statement and parameter since its last execution / prepare, every other parameter is decoded from the "
@@ -11,8 +11,40 @@ ASSUMPTIONS = c16.ASSUMPTIONS + ["a client never sets the NULL bit of a paramete
 oracle = c16.oracle
 
 
+def wide_cases(ctx):
+    """statements with more than 64 (and more than 256) parameters; long data for parameters around the 64 / 128 / 256
+    marks, in ascending and descending order; the other parameters inline"""
+    rng = ctx.rng
+    out = []
+    for j, (npar, longs) in enumerate([(65, [64]), (66, [63, 64, 65]), (70, [69, 0, 64]), (130, [128, 127, 64]), (260, [256, 255, 64, 0])]):
+        types = [(253, False)] * npar
+        cmds = [("prepare", cmd_prepare(b"w"))]
+        scripts = ["p reply 4 %s 0" % progs.cols_tok([dict(table=b"", name=b"?", type=253, flags=0)] * npar)]
+        data = {}
+        for k, par in enumerate(longs):
+            chunk = b"L%d-" % par + bytes([65 + k]) * rng.randint(0, 5)
+            cmds.append(("longdata", cmd_long_data(4, par, chunk)))
+            data[par] = data.get(par, b"") + chunk
+        vals, calls = [], []
+        for i in range(npar):
+            if i in data:
+                calls.append("param|253|bytes:" + data[i].hex())
+            else:
+                v = b"i%d" % i
+                vals.append(lenenc_str(v)); calls.append("param|253|bytes:" + v.hex())
+        cmds.append(("execute", cmd_execute(4, exec_block([False] * npar, types, vals))))
+        scripts.append("x all - done 0 0")
+        c = mk_case("w_%d" % j, cmds, scripts)
+        c.meta["expect_calls"] = ["auth|" + b"jon".hex(), "prepare|" + b"w".hex(), "execute|4"] + calls
+        c.meta["reuse"] = False
+        out.append(c)
+    return out
+
+
 def run(ctx):
-    cases = c16.gen(ctx, True)
+    from . import progs
+    globals()["progs"] = progs
+    cases = c16.gen(ctx, True) + wide_cases(ctx)
     ctx.diff_conn(cases, oracle=oracle, nontrivial=lambda c, o: any(k == "longdata" for k, _, _ in c.meta["cmds"]),
                   classify=lambda c, o: ["chunks_%d" % min(sum(1 for k, _, _ in c.meta["cmds"] if k == "longdata"), 6),
                                         "lim_%s" % (c.lim if c.lim < 1000 else "real")])
